@@ -93,26 +93,26 @@ func single(shape string) bool { return shape == Unary || shape == UAS || shape 
 
 // state is the validity automaton of scripts; it is also what the classifier reads.
 type state struct {
-	shape                         string
-	cSent, sSent                  int
-	cClosed, cFinal               bool
-	seDone                        bool
-	hdrSet, hdrSent, hdrSetLate   bool
-	hdrSentTwice                  bool
-	trSet, trAfterResp, trAfterX  bool
-	hdrAfterX                     bool
-	x                             string // "", XC, XD
-	xObserved                     bool   // server did SW or SR after x
-	crBeforeReturn                bool
-	returned                      bool
-	retErr                        string
-	cr                            bool
-	respSent                      bool // single-response shapes: the response has been handed over (cstream SS)
-	ch                            int
-	errAfterResp                  bool
-	xAfterResp                    bool
-	srvMsgsBeforeHdr              bool
-	hdCount                       int
+	shape                        string
+	cSent, sSent                 int
+	cClosed, cFinal              bool
+	seDone                       bool
+	hdrSet, hdrSent, hdrSetLate  bool
+	hdrSentTwice                 bool
+	trSet, trAfterResp, trAfterX bool
+	hdrAfterX                    bool
+	x                            string // "", XC, XD
+	xObserved                    bool   // server did SW or SR after x
+	crBeforeReturn               bool
+	returned                     bool
+	retErr                       string
+	cr                           bool
+	respSent                     bool // single-response shapes: the response has been handed over (cstream SS)
+	ch                           int
+	errAfterResp                 bool
+	xAfterResp                   bool
+	srvMsgsBeforeHdr             bool
+	hdCount                      int
 }
 
 // allowed reports whether st may follow in state s (the lock-step and in-scope rules of the property).
